@@ -654,7 +654,7 @@ def selftest_determinism(scens):
     for prop, chk in CHECKS.items():
         for part in chk["parts"]:
             key = (part["module"], part["scenario"], part.get("variant", ""))
-            if key not in todo and (not scens or part["scenario"] in scens):
+            if key not in todo and (not scens or part["scenario"] in scens or (part["scenario"] + ":" + part.get("variant", "")) in scens):
                 todo.append(key)
     bad = 0
     for mod, scen, variant in todo:
@@ -667,7 +667,7 @@ def selftest_determinism(scens):
                 b.run(424242, n, jobs=4)
                 results.append({s: o["log_hash"] for s, o in b.outcomes.items()})
         div = [s for s in results[0] if any(r.get(s) != results[0][s] for r in results)]
-        print("%-20s %d seeds x 9 processes (GOMAXPROCS 1,4,16): %d divergent %s" % (scen, n, len(div), div[:8]))
+        print("%-20s %d seeds x 9 processes (GOMAXPROCS 1,4,16): %d divergent %s" % (scen + (":" + variant if variant else ""), n, len(div), div[:8]))
         bad += len(div)
     sys.exit(2 if bad else 0)
 
